@@ -1,4 +1,4 @@
-\* model checking of Str.tla (quick bounds); lib/checks_str.py derives the other configurations from this file
+\* model checking of Str.tla, quick bounds (the thorough bounds and the behaviour-emission configurations are generated by lib/checks_str.py from the same constants)
 INIT Init
 NEXT Next
 VIEW view
@@ -8,6 +8,7 @@ CONSTANTS
     MaxChars = 3
     MaxOps = 3
     Texts <- TextsSmall
+    CTexts <- CTextsDef
     Lits <- LitsDef
     Kinds <- AllKinds
     FixedCaps <- CapsDef
@@ -20,6 +21,7 @@ CONSTANTS
     Apis <- BothApis
     DrainF = 2
     DrainB = 1
+    OutFilter <- AllOuts
     CheckProps = TRUE
     SampleK = 0
 INVARIANTS
